@@ -20,7 +20,7 @@ RULE = ('seeded generator: arrays and cubes 1..14 per side (even/odd/non-square)
         'descriptors; non-trivial = more than one sample.')
 ASSUMPTIONS = ['binary-shape comparisons skip pixels whose exactly computed edge margin is < 1e-9 (ties are not evidence)']
 PLAN = {'quick': {'gen': 8}, 'thorough': {'gen': 16, 'tests': 1, 'docs': 1}}
-REQUIRED_BUCKETS = ['defaults', 'pad:2d', 'pad:cube', 'pad:nonsquare-cube', 'pad:grow', 'pad:shrink', 'pad:mixed',
+REQUIRED_BUCKETS = ['defaults', 'reuse', 'pad:2d', 'pad:cube', 'pad:nonsquare-cube', 'pad:grow', 'pad:shrink', 'pad:mixed',
                     'pad:parity-change', 'subarray', 'window', 'boundary', 'boundary:signed-frame', 'slice_offset', 'slice_offset:open-ended', 'centroid', 'rebin',
                     'rebin:cube', 'rebin:small-int', 'mesh', 'shape:circle', 'shape:hexagon', 'shape:rectangle', 'shape:spider', 'shape:sequence', 'shape:binary',
                     'shape:antialias', 'hexseg', 'hexseg:gap0', 'hexseg:drop', 'hexseg:drop-repeated', 'rescale:origin', 'dtype:reduced-precision']
